@@ -53,12 +53,17 @@ def build(repo, findings):
     f = fn('bool_to_i64')
     f.sig(ret='r', ensures=[C('C07 bool', 'r == b2i(value)')])
     u.add(f)
-    p = fn('wrapping_pow_u64')
-    p.sig(ret='r', ensures=[C('C07 pow', 'r == pow_spec(base, exponent)')])
-    p.before(r'^\s*let mut result: i64 = 1;', 'let ghost b0 = base; let ghost e0 = exponent;')
-    p.loop(0, invariant=[C('C07 pow-loop', 'pow_acc(result, base, exponent) == pow_acc(1, b0, e0)')], decreases='exponent')
-    p.before(r'^\s*result$', 'proof { lemma_pow_acc(1, b0, e0); assert(1 * pow(b0 as int, e0 as nat) == pow(b0 as int, e0 as nat)) by (nonlinear_arith); }')
-    u.add(p)
+    if ar.has(r'^(?:const )?fn wrapping_pow_u64\('):
+        p = fn('wrapping_pow_u64')
+        p.sig(ret='r', ensures=[C('C07 pow', 'r == pow_spec(base, exponent)')])
+        p.before(r'^\s*let mut result: i64 = 1;', 'let ghost b0 = base; let ghost e0 = exponent;')
+        p.loop(0, invariant=[C('C07 pow-loop', 'pow_acc(result, base, exponent) == pow_acc(1, b0, e0)')], decreases='exponent')
+        p.before(r'^\s*result$', 'proof { lemma_pow_acc(1, b0, e0); assert(1 * pow(b0 as int, e0 as nat) == pow(b0 as int, e0 as nat)) by (nonlinear_arith); }')
+        u.add(p)
+    else:
+        u.notes.append('wrapping_pow_u64 is not in the source: the power arm is verified against whatever it calls instead')
+    # std's own wrapping_pow (32-bit exponent), so that a power arm written with it is verified against the contract rather than refused
+    u.raw('pub assume_specification [i64::wrapping_pow] (b: i64, e: u32) -> (r: i64)\n    ensures r == pow_spec(b, e as u64);\n')
     u.raw(FOOTER)
     u.assume('assume_specification', 'std integer methods without a vstd spec (contracts/std/int_ops.rs: wrapping_neg/div/rem, saturating_*, checked_shl/shr, ...) equal their closed forms; discharged against real std by Kani over the full domain in the thorough tier')
     u.assume('external_body', 'Shell is opaque; deref_lvalue and assign are stubs with uninterpreted semantics deref_sem / assign_sem (their bodies — Cow, closures, environment, recursive evaluation of variable contents — are NOT verified); derived Clone of ArithmeticTarget returns an equal value')
